@@ -651,11 +651,23 @@ func (e *Exec) ghostCall(f *frame, in ssa.Instruction, fn *ssa.Function, args []
 		}
 		top := e.oldStack[len(e.oldStack)-1]
 		call := in.(*ssa.Call)
+		if top == nil {
+			// the run in the pre-state: remember the value (old() may sit inside a quantifier body or a
+			// spec function called from the clause, whose frames are gone when the run ends)
+			if len(e.oldCollect) > 0 {
+				e.oldCollect[len(e.oldCollect)-1][call.Call.Args[0]] = args[0]
+			}
+			return args[0], h, g
+		}
 		if ov, ok := top[call.Call.Args[0]]; ok {
 			return ov, h, g
 		}
-		// constants and parameters are state independent
-		return args[0], h, g
+		switch call.Call.Args[0].(type) {
+		case *ssa.Const, *ssa.Parameter, *ssa.FreeVar:
+			// constants and parameters are state independent
+			return args[0], h, g
+		}
+		panic(fmt.Sprintf("old(): no pre-state value was recorded for %s in %s", call.Call.Args[0], fn.Name()))
 	case "isType":
 		ta := fn.TypeArgs()[0]
 		v := args[0]
@@ -995,8 +1007,8 @@ func (e *Exec) contractCall(f *frame, in ssa.Instruction, sp *FuncSpec, key stri
 	e.lockOps(sp, args, post)
 	gout := g
 	for _, c := range sp.Clauses {
-		if c.Kind != KEnsures {
-			continue
+		if c.Kind != KEnsures || c.SinceLock != "" {
+			continue // (a since-lock postcondition speaks about a state inside the callee: not used at call sites)
 		}
 		txt := strings.TrimSpace(c.Text)
 		if strings.HasPrefix(txt, "fresh(") && strings.HasSuffix(txt, ")") {
@@ -1139,13 +1151,22 @@ func (e *Exec) lockOps(sp *FuncSpec, args []Val, post *Heap) {
 		sort.Strings(comps)
 		for _, c := range comps {
 			if _, ok := e.compSort[c]; !ok {
-				continue // never touched by this function
+				mt := e.eng.guarded[c].mapType
+				if mt == nil {
+					continue // never touched by this function
+				}
+				// a map-holding field not read yet: declared here, so that the state at this acquisition can
+				// be named later ("ensures sincelock")
+				e.compDecl(c, "(Array Ref "+e.s.sortOf(mt)+")")
 			}
 			post.m[c] = e.s.freshConst("locked", e.compSort[c])
+			e.snapshotAtLock(post, c)
 			if mt := e.eng.guarded[c].mapType; mt != nil {
 				dc, vc := e.mapComps(mt)
 				post.m[dc] = e.s.freshConst("locked", e.compSort[dc])
 				post.m[vc] = e.s.freshConst("locked", e.compSort[vc])
+				e.snapshotAtLock(post, dc)
+				e.snapshotAtLock(post, vc)
 			}
 		}
 	}
@@ -1159,6 +1180,36 @@ func (e *Exec) lockOps(sp *FuncSpec, args []Val, post *Heap) {
 }
 
 var _ = token.ADD
+
+// snapshotAtLock remembers, as hidden heap components, what a guarded component held right after its mutex was
+// acquired (heap components merge path by path, so the snapshots are path sensitive and loop-aware like any other).
+func (e *Exec) snapshotAtLock(h *Heap, comp string) {
+	sc := "@lock|" + comp
+	e.compDecl(sc, e.compSort[comp])
+	h.m[sc] = h.m[comp]
+	// ... and what it held after the first acquisition on this path
+	fc := "@lock1|" + comp
+	e.compDecl(fc, e.compSort[comp])
+	if _, ok := h.m[fc]; !ok {
+		h.m[fc] = h.m[comp]
+	}
+}
+
+// lockSnapshot: the heap h with every guarded component put back to its value at the last (or first) acquisition;
+// the pre-state that old() refers to in "ensures sincelock" / "ensures sincefirstlock" clauses.
+func (e *Exec) lockSnapshot(h *Heap, which string) *Heap {
+	prefix := "@lock|"
+	if which == "first" {
+		prefix = "@lock1|"
+	}
+	out := h.clone()
+	for k, v := range h.m {
+		if strings.HasPrefix(k, prefix) {
+			out.m[strings.TrimPrefix(k, prefix)] = v
+		}
+	}
+	return out
+}
 
 func usesOld(fn *ssa.Function, seen map[*ssa.Function]bool) bool {
 	if seen[fn] {
